@@ -229,6 +229,8 @@ def check(prog, run):
     if not ok:
         run.report(r, "%s:ResolutionContext.add_error:conditional-append" % WRAP, ae.where(),
                    "add_error does not unconditionally append the error (early return or conditional append): a field error can be dropped")
+    from . import c04
+    c04.check_add_error(prog, run, r)
     ep = rc.find_method("errors")
     shapes.require(ep is not None, "C10.K7: ResolutionContext.errors not found")
     rets = [n for n in own_nodes(ep.node) if isinstance(n, ast.Return)]
@@ -271,6 +273,10 @@ def check(prog, run):
     for n in own_nodes(resp.node):
         if isinstance(n, ast.Call) and isinstance(n.func, ast.Name) and n.func.id in ("set", "deduplicate", "frozenset", "OrderedDict") and n.args and over_errors(n.args[0]):
             run.report(r, "%s:GraphQLResult.response:collapsing-call(%s)" % (WRAP, n.func.id), resp.where(n), "%s(...) over the errors collapses equal entries" % n.func.id)
+
+    # ---- K8 numeric conversions of the specified scalars cannot abort a request (shared with C07.I4)
+    from . import c07
+    c07.check_numeric_conversions(prog, run, "K8")
 
 
 def _defensive_default(raise_stmt):
